@@ -36,6 +36,7 @@ inductive Op where
   | sIns (k : Sid) (r : Rel) (x : Tup)
   | sRet (k : Sid) (r : Rel) (x : Tup)
   | sRule (k : Sid)               -- add  cnt(count<X>) <- r0(X)
+  | sClear (k : Sid)              -- SessionManager::clear_session: drop all ephemeral facts and rules
   | qScan (k : Sid) (r : Rel)
   | qCount (k : Sid)
   deriving Repr, DecidableEq, Inhabited
@@ -118,6 +119,7 @@ def step (st : State) (t : Tid) : Res :=
       if (s.facts r).contains x then fin { st with sess := setF st.sess k { s with facts := setF s.facts r ((s.facts r).erase x) } } (.n 1)
       else fin st (.n 0)
     | .sRule k, _ => let s := st.sess k; fin { st with sess := setF st.sess k { s with rules := s.rules + 1 } } .ok
+    | .sClear k, _ => fin { st with sess := setF st.sess k {} } .ok
     | .qScan k r, .start => if (st.sess k).clean NREL then fin st (.rows (evalScan (st.pers r) [])) else go .q1
     | .qCount k, .start => if (st.sess k).clean NREL then fin st (.rows []) else go .q1
     | .qScan k _, .q1 => go (.q2 (st.sess k).facts)
